@@ -528,7 +528,7 @@ func ruleScope(m *evalModel, r *Report, rule string) {
 				switch {
 				case k == scFreshChild:
 					r.ok(rule, fn, construct, in.Pos(), "binding written into a scope created in this region")
-				case k == scCurrent && (region == "def" || region == "defmacro") && fn == m.EVAL:
+				case k == scCurrent && (region == "def" || region == "defmacro") && (fn == m.EVAL || m.helperOf(fn) != nil):
 					r.ok(rule, fn, construct, in.Pos(), "def binds in the current scope")
 				default:
 					r.bad(rule, fn, construct, in.Pos(), "binding written into "+k.String()+" outside def/defmacro: local names become visible to other evaluations / outer code")
@@ -613,6 +613,20 @@ func checkC01(w *World, r *Report) {
 	ruleDef(m, r)
 	ruleBody(m, r)
 	ruleBinds(w, r, e)
+	r.rule("C01.builtin-errors", "a builtin called outside its domain (wrong count or kind of arguments) yields an error at that point of the evaluation, not a host panic: every adapter the binder registers starts with a deferred function that calls recover() itself (shared with C03.panic-conversion / C20.siblings)")
+	{
+		nad := 0
+		extSigT := w.ByPath[modPath+"/types"].Types.Scope().Lookup("ExternalCall")
+		for _, f := range w.addrTaken() {
+			if extSigT == nil || fnPkgPath(f) != modPath+"/lib/call" || !sameParamsResults(f.Signature, extSigT.Type().Underlying().(*types.Signature)) || isTestFunc(w, f) {
+				continue
+			}
+			nad++
+			_, ok := w.barrierOf(f)
+			r.check(ok, "C01.builtin-errors", f, "binder adapter", f.Pos(), "defer of a function that calls recover() directly", "the deferred function does not call recover() itself (recover only works in the deferred function's own frame): the panic raised by the argument check escapes EVAL instead of becoming the prescribed error")
+		}
+		r.floor("C01.builtin-errors", "binder adapters", nad, 2)
+	}
 	r.rule("C01.no-mutation", "evaluation never writes into a form or into a value it was given: the evaluator, the binder and the builtins write only into storage allocated in the same activation, and storage handed to a call inside a loop is not written again on the next iteration (a literal evaluated twice, or the rest list of an earlier call, would otherwise change; shared with C02.write)")
 	nmu := ruleContainerWrites(w, r, e, "C01.no-mutation", func(fn *ssa.Function) bool { return runtimePkg(fnPkgPath(fn)) }, false)
 	r.floor("C01.no-mutation", "container write sites in the library", nmu, 40)
